@@ -850,4 +850,8 @@ example : Closed (· = "f") demoVM3 := by
   have h : OMap.lookup "f" demoVM3.r.fx = some { flowId := "f", loopId := none, hierPos := "0.0", parentUid := some "m" } := rfl
   rw [h] at hl; cases hl
   exact ⟨fun c hc => absurd hc (by simp [kids, scopeFlows]), rfl⟩
+
+/-- non-vacuity of `vm_try_catches` and `vm_slide_returns_own_heads` -/
+example : attemptPy (pyRaise "E" "m" : M Unit) demoVM = .ok (.error ("E", "m")) demoVM := vm_try_catches _ _ _ _ _ rfl
+example : ∃ r s', slide 3 "f" "h" demoVM2A = .ok r s' := ⟨_, _, rfl⟩
 end NemoVerif.C10.VM
